@@ -155,6 +155,10 @@ def rows_for(draw, spec, seq, max_rows=6):
                         else:
                             row = None
                             break
+                    elif tn == 0:
+                        # (the target lost its rows in the adjustments above)
+                        row = None
+                        break
                     else:
                         row[f['uid']] = draw(st.integers(1, tn))
                 else:
@@ -346,6 +350,11 @@ def evolve_rows_hinted(spec, final, seq, rows, links):
                 if f['kind'] == 'ManyToMany':
                     continue
                 f0 = start_fields.get(f['uid'])
+                if f0 is None:
+                    # the hint is computed from names: a field that was replaced by another
+                    # definition under the same name is a ChangeField(field_type=...) for
+                    # it, and the stored values stay (converted by the column's affinity)
+                    f0 = S.get_field(m0, f['name'])
                 if f0 is None or f0['kind'] == 'ManyToMany':
                     # added column: initial only if the hint had to ask for one
                     if not f['null'] and f['uid'] in last_initial:
@@ -353,7 +362,7 @@ def evolve_rows_hinted(spec, final, seq, rows, links):
                     else:
                         d[f['uid']] = None
                 else:
-                    v = r.get(f['uid'])
+                    v = r.get(f0['uid'])
                     if v is not None and (f0['kind'] != f['kind'] or
                                           any(f0[k] != f[k] for k in
                                               ('max_length', 'max_digits', 'decimal_places'))):
